@@ -9,6 +9,7 @@ import (
 	"os"
 	"path/filepath"
 	"strings"
+	"time"
 
 	"verif/harness/rt"
 	"verif/harness/sexp"
@@ -50,11 +51,32 @@ func k1(args []string) {
 	nTerms, nHist, nPanicOps, nYields := 0, 0, 0, 0
 	var samples []string
 
+	// watchdog: an operation of the implementation that does not answer (e.g. a Result() that drains an
+	// endless generator) is reported as the answer TIMEOUT for that history - a concrete disagreement with the
+	// model - and the run stops there instead of hanging until the stage's time limit
+	stopped := false
+	runOps := func(t *rt.CTerm, h []rt.Op) string {
+		ch := make(chan string, 1)
+		go func() { ch <- rt.RunOps(t, h) }()
+		select {
+		case g := <-ch:
+			return g
+		case <-time.After(20 * time.Second):
+			stopped = true
+			return "TIMEOUT(no answer within 20s: the operation does not terminate)"
+		}
+	}
 	emit := func(t *rt.CTerm, hs [][]rt.Op) {
+		if stopped {
+			return
+		}
 		var rs, gs []string
 		for _, h := range hs {
 			rs = append(rs, rt.OpsSexp(h))
-			g := rt.RunOps(t, h)
+			g := "SKIPPED(after a timeout)"
+			if !stopped {
+				g = runOps(t, h)
+			}
 			gs = append(gs, g)
 			nPanicOps += strings.Count(g, "PANIC(")
 			nYields += strings.Count(g, "=true")
@@ -106,6 +128,7 @@ func k1(args []string) {
 	}
 	stats["random_terms"] = nRandom
 	stats["terms"] = nTerms
+	stats["stopped_by_timeout"] = stopped
 	stats["histories"] = nHist
 	stats["node_kinds"] = kinds
 	stats["panicking_ops"] = nPanicOps
